@@ -13,7 +13,7 @@ RULE = ("Hypothesis-generated (overall degree function as a positive table or a 
         "the dispatcher). Oracle: independent enumeration of all splits (rel. 1e-9). Non-trivial = range with >= 2 "
         "degrees and >= 2 topologies; distinct = distinct canonical JSON")
 ASSUMPTIONS = ["the upper end of the degree range may be read as exclusive or inclusive (read off the largest k present)"]
-BUDGET = {"quick": (16, 200), "thorough": (16, 3000)}
+BUDGET = {"quick": (16, 200), "thorough": (16, 8000)}
 
 
 @st.composite
